@@ -642,20 +642,34 @@ def _h_clauses(G, tag):
 
 
 def _h_subset_clauses(G, nodes, tag):
-    """staged use: hydrogens made explicit on a chosen subset of atoms only (as the reactor does for the atoms a rule
-    touches).  The same clauses: neither direction changes the heavy skeleton or the total hydrogen count."""
+    """partial and staged use: hydrogens made explicit on a chosen subset of atoms only (as the reactor does for the atoms
+    a rule touches), or on one half of the atoms first and on the rest later.  The same clauses: neither direction changes
+    the heavy skeleton or the total hydrogen count, and implicit-again restores the graph."""
     from synkit.Graph.Hyrogen._misc import h_to_explicit, h_to_implicit
     fails = []
     if not _molecule_like(G):
         return fails
-    e = h_to_explicit(G, nodes)
-    i = h_to_implicit(e)
     h0 = _total_h(G)
-    for nm, X in (("h_to_explicit(nodes=%r)" % (nodes,), e), ("h_to_implicit after it", i)):
+    xh = any((G.nodes[a].get("element") == "H") != (G.nodes[b].get("element") == "H") for a, b in G.edges())
+    ids = sorted(G.nodes)
+    half, rest = ids[:len(ids) // 2], ids[len(ids) // 2:]
+    e = h_to_explicit(G, nodes)
+    e1 = h_to_explicit(G, half) if half else G
+    e2 = h_to_explicit(e1, rest) if rest else e1
+    runs = [("h_to_explicit(nodes=%r)" % (nodes,), e), ("h_to_implicit after it", h_to_implicit(e)),
+            ("staged h_to_explicit(%r) then (%r)" % (half, rest), e2), ("h_to_implicit after the staged expansion", h_to_implicit(e2))]
+    for nm, X in runs:
         if _total_h(X) != h0:
             fails.append(_fail("H-total", "%s: total hydrogen count %d -> %d after %s" % (tag, h0, _total_h(X), nm)))
         if _heavy_skeleton(X) != _heavy_skeleton(G):
             fails.append(_fail("H-molecule", "%s: heavy atoms / bonds changed by %s" % (tag, nm)))
+    if not xh:
+        for nm, X in (runs[1], runs[3]):
+            why = _same_graph(G, X)
+            if why:
+                fails.append(_fail("H-roundtrip", "%s: %s does not restore the graph: %s" % (tag, nm, why)))
+    if half and rest and any((d.get("hcount", 0) or 0) != 0 for n, d in e2.nodes(data=True) if n in G):
+        fails.append(_fail("H-explicit-complete", "%s: hcount left after the staged expansion of all atoms" % tag))
     return fails
 
 
@@ -699,13 +713,20 @@ def _oracle_mol(case):
                            % (s, G.number_of_nodes(), G.number_of_edges(), _total_h(G), ref.GetNumAtoms(), ref.GetNumBonds(), nh_ref)))
     fails += _h_clauses(G, repr(s))
     want = _canon_nostereo(ref, addhs=True)
+    ids = sorted(G.nodes)
+    half, rest = ids[:len(ids) // 2], ids[len(ids) // 2:]
+    staged = h_to_explicit(h_to_explicit(G, half), rest) if half and rest else h_to_explicit(G, None)
+    react = h_to_explicit(G, ids[:1])          # a single atom, not the one with the largest id (as the reactor does)
+    fails += _h_subset_clauses(G, ids[:1], repr(s))
     for nm, X in (("h_to_explicit", h_to_explicit(G, None)), ("h_to_implicit(h_to_explicit)", h_to_implicit(h_to_explicit(G, None))),
-                  ("h_to_implicit", h_to_implicit(G))):
+                  ("h_to_implicit", h_to_implicit(G)), ("staged h_to_explicit (first half, then the rest)", staged),
+                  ("h_to_implicit after the staged expansion", h_to_implicit(staged)), ("h_to_explicit on one atom", react),
+                  ("h_to_implicit after h_to_explicit on one atom", h_to_implicit(react))):
         o = graph_to_smi(X)
         m = Chem.MolFromSmiles(o) if o is not None else None
         if m is None or _canon_nostereo(m, addhs=True) != want:
             fails.append(_fail("H-molecule-rdkit", "%r: after %s the graph reads %r, expected the molecule %r" % (s, nm, o, want)))
-    return fails[:4]
+    return fails[:5]
 
 
 # ---- rules as labelled structures, equivalence up to renaming of ids
